@@ -206,6 +206,21 @@ func (to *TraceObserver) QueueBatch(count uint64, batch []byte) {
 		to.emptyQueue()
 	}
 
+	// The batch may still not fit: it is larger than the whole queue, or
+	// the capacity is held by batches the worker has taken but not yet
+	// reported back on messagesSent. Drop it and count it as dumped;
+	// subtracting it anyway would wrap the unsigned counter around and
+	// switch the back-pressure off.
+	if to.messagesRemainingCapacity < count {
+		to.supportability.increment <- metricIncrement{
+			name:  supportabilityQueueDumped,
+			count: float64(count),
+		}
+		log.Debugf("trace observer dropped a batch of %d spans, %d of %d remaining in queue",
+			count, to.messagesRemainingCapacity, to.QueueSize)
+		return
+	}
+
 	b := &spanBatch{
 		count: count,
 		batch: batch,
